@@ -406,6 +406,19 @@ def fresh_of(m):
     return f
 
 
+def _donor(m, which):
+    """the tracked array of ANOTHER mesh whose hash was already read (clean flag): assigning
+    it replaces the store entry by an object that does not look modified"""
+    import trimesh
+
+    if which == "vertices":
+        d = trimesh.Trimesh(vertices=np.array(m.vertices) * 1.5 + 0.25, faces=np.array(m.faces), process=False)
+    else:
+        d = trimesh.Trimesh(vertices=np.array(m.vertices), faces=np.ascontiguousarray(np.roll(np.array(m.faces), 1, axis=1)[::-1]), process=False)
+    d.area, d.bounds, hash(d)  # the donor was queried: its arrays' hashes are clean
+    return d.vertices if which == "vertices" else d.faces
+
+
 def mutators(tier):
     import trimesh
     from trimesh import transformations as tf
@@ -439,6 +452,8 @@ def mutators(tier):
         ("vertices=2v", lambda m: setattr(m, "vertices", np.array(m.vertices) * 2.0)),
         ("faces=fliplr", lambda m: setattr(m, "faces", np.ascontiguousarray(np.fliplr(m.faces)))),
         ("faces[0]=reversed", lambda m: m.faces.__setitem__(0, m.faces[0][::-1].copy())),
+        ("vertices=clean-tracked-array-of-another-mesh", lambda m: setattr(m, "vertices", _donor(m, "vertices"))),
+        ("faces=clean-tracked-array-of-another-mesh", lambda m: setattr(m, "faces", _donor(m, "faces"))),
         ("density=3", lambda m: setattr(m, "density", 3.0)),
         ("center_mass=override", lambda m: setattr(m, "center_mass", [0.1, 0.2, 0.3])),
     ]
